@@ -57,14 +57,15 @@ Record Core (st : lstate) (es : estore) (T : list node) (Dr : list fev) (R : lis
   co_evs : evs (l_idx st) = E_of Dr;
   co_es : forall e, In e Dr -> get_event es (eid (fe e)) = Some (ae e);
   co_sub : incl R T;
+  co_nodup : NoDup (l_roots st);
   co_roots : forall r, In r (l_roots st) <-> exists n f, In n R /\ is_root_at node nd_fr nd_spf f n = true /\ r = slot n f }.
 
 Lemma Core_fcc st es T Dr R c : Core st es T Dr R -> Core (set_fcc st c) es T Dr R.
-Proof. intros [A B C D E F G H]. constructor; auto. Qed.
+Proof. intros [A B C D E F G H I]. constructor; auto. Qed.
 Lemma Core_ctr st es T Dr R c : Core st es T Dr R -> Core (set_ctr st c) es T Dr R.
-Proof. intros [A B C D E F G H]. constructor; auto. Qed.
+Proof. intros [A B C D E F G H I]. constructor; auto. Qed.
 Lemma Core_el st es T Dr R el : Core st es T Dr R -> Core (set_el st el) es T Dr R.
-Proof. intros [A B C D E F G H]. constructor; auto. Qed.
+Proof. intros [A B C D E F G H I]. constructor; auto. Qed.
 
 Lemma Core_wfT st es T Dr R : Core st es T Dr R -> wfT vals T.
 Proof. intros C. eapply wfTD_wfT. apply (co_wf _ _ _ _ _ C). Qed.
@@ -177,6 +178,32 @@ Proof.
 Qed.
 
 (* ---------- the root table and the reference's roots ---------- *)
+Lemma roots_for_map Tb ms g : (forall m, In m ms -> In m Tb) -> roots_for Tb (map (fun m => slot m g) ms) ms.
+Proof.
+  induction ms as [|m t IH]; intros H; cbn [map]; constructor.
+  - repeat split. apply H. left. reflexivity.
+  - apply IH. intros m' Hm'. apply H. right. exact Hm'.
+Qed.
+
+(* observedRoots over the stored roots of a frame: exactly the entries of the observed nodes, in table order *)
+Lemma observed_loop_map st es T Dr R k Ta Tb na g : Core st es T Dr R -> incl Ta T -> incl Tb T -> In na Ta ->
+  ~ is_temp k (nd_id na) ->
+  forall ms, (forall m, In m ms -> In m Tb) -> forall st0 acc, (exists c0, st0 = set_fcc st c0) -> cache_inv k st0 Ta Tb ->
+  exists c', observed_loop cap st0 (nd_id na) (map (fun m => slot m g) ms) acc =
+               (rev acc ++ map (fun m => slot m g) (filter (fcn na) ms), set_fcc st c') /\
+             cache_inv k (set_fcc st c') Ta Tb.
+Proof.
+  intros C Sa Sb Ha NT. induction ms as [|m ms IH]; intros Hms st0 acc [c0 ->] CI; cbn [map observed_loop filter].
+  - exists c0. rewrite app_nil_r. split; [reflexivity | exact CI].
+  - change (r_id (slot m g)) with (nd_id m).
+    destruct (fc_cached_sim (set_fcc st c0) es T Dr R k Ta Tb na m (Core_fcc _ _ _ _ _ _ C) CI Sa Sb Ha
+                (Hms m (or_introl eq_refl)) NT) as [c1 [E1 CI1]].
+    rewrite E1. replace (set_fcc (set_fcc st c0) c1) with (set_fcc st c1) in * by reflexivity.
+    destruct (IH (fun m' H' => Hms m' (or_intror H')) (set_fcc st c1) (if fcn na m then slot m g :: acc else acc)
+                (ex_intro _ c1 eq_refl) CI1) as [c2 [E2 CI2]].
+    rewrite E2. exists c2. split; [|exact CI2]. destruct (fcn na m); cbn [rev map]; [rewrite <- app_assoc|]; reflexivity.
+Qed.
+
 Lemma slot_frame n f : r_frame (slot n f) = f. Proof. reflexivity. Qed.
 Lemma slot_id n f : r_id (slot n f) = nd_id n. Proof. reflexivity. Qed.
 Lemma slot_val n f : r_val (slot n f) = vid vals (nd_cr n). Proof. reflexivity. Qed.
@@ -190,9 +217,13 @@ Qed.
 Lemma frame_roots_for st es T Dr R f : Core st es T Dr R ->
   exists ms, roots_for R (get_frame_roots st f) ms /\
              (forall m, In m ms <-> In m (rts R f)) /\
-             get_frame_roots st f = map (fun m => slot m f) ms.
+             get_frame_roots st f = map (fun m => slot m f) ms /\ NoDup ms.
 Proof.
-  intros C. unfold get_frame_roots.
+  intros C.
+  assert (ND : forall ms, get_frame_roots st f = map (fun m => slot m f) ms -> NoDup ms).
+  { intros ms E. apply (NoDup_map_inv (fun m => slot m f)). rewrite <- E. unfold get_frame_roots.
+    apply NoDup_filter. apply (co_nodup _ _ _ _ _ C). }
+  unfold get_frame_roots in *.
   assert (G : forall l : list root, (forall r, In r l -> In r (l_roots st)) ->
             exists ms, roots_for R (filter (fun r => r_frame r =? f) l) ms /\
                        (forall m, In m ms -> In m (rts R f)) /\
@@ -208,7 +239,7 @@ Proof.
         * cbn [map]. f_equal. exact M.
       + exists ms. auto. }
   destruct (G (l_roots st) (fun r H => H)) as [ms [RF [I M]]].
-  exists ms. split; [exact RF|]. split; [|exact M].
+  exists ms. split; [exact RF|]. split; [|split; [exact M | apply ND; exact M]].
   intros m. split; [apply I|]. intros Hm. unfold roots_at in Hm. apply filter_In in Hm as [Hm Hr].
   assert (Hin : In (slot m f) (filter (fun r => r_frame r =? f) (l_roots st))).
   { apply filter_In. split; [|rewrite slot_frame; apply N.eqb_refl]. apply (co_roots _ _ _ _ _ C). exists m, f. auto. }
